@@ -211,7 +211,20 @@ func TestC10Restart(t *testing.T) {
 			queued = 0
 		}
 		outcome := r.Intn(4) // validator on restart: 0-2 accept, 3 reject
+		// the previous request is only cancelled when the new one is opened: blocks of it can still arrive
+		// while the restart is being validated (push responder, previous request live)
+		lateBlocks := 0
+		if weRequest && !rl.Initiator && prev == 0 && !reopen {
+			lateBlocks = 1 + r.Intn(3)
+		}
+		lateFired := false
 		f.val.SetOutcome(func(kind string, n int, ch datatransfer.ChannelID) (datatransfer.ValidationResult, error) {
+			if kind == "restart" && lateBlocks > 0 && !lateFired {
+				lateFired = true
+				for i := 1; i <= lateBlocks; i++ {
+					f.gs.IncomingBlockHook(other, doubles.Resp(firstReq, nil, graphsync.PartialResponse), doubles.Block(uint64(500+i), int64(nblocks+i), true), &testharness.FakeIncomingBlockHookActions{})
+				}
+			}
 			return datatransfer.ValidationResult{Accepted: outcome != 3}, nil
 		})
 		nkeys := channelKeys(f.ds)
@@ -244,6 +257,12 @@ func TestC10Restart(t *testing.T) {
 			c.Violation("C10", "channel-lost-on-restart", "channel gone after restart")
 			f.m.Stop(bg)
 			return
+		}
+		if lateFired {
+			// progress recorded from the late blocks is not the restart's doing: compare identity only, and
+			// take the recorded progress as it stands now as what the skip count must say
+			c.Count("blocks_recorded_during_restart_validation", lateBlocks)
+			before.Received, before.RecvIdx = after.Received, after.RecvIdx
 		}
 		if d := identityDiff(before, after); len(d) > 0 {
 			c.Violation("C10", fmt.Sprintf("restart-altered-channel %v", d), "restart (%s, remote=%v, reopened=%v) changed %v", rl, remote, reopen, d)
